@@ -44,7 +44,9 @@ type MemoryLoader struct {
 func (l *MemoryLoader) Load(name string) (Template, error) {
 	v, ok := l.Templates[name]
 	if !ok {
-		return nil, os.ErrNotExist
+		// Like the error of a FilesystemLoader, this one says which template
+		// is missing, and os.IsNotExist reports true for it.
+		return nil, &os.PathError{Op: "load", Path: name, Err: os.ErrNotExist}
 	}
 	return &stringTemplate{name, v}, nil
 }
